@@ -258,6 +258,16 @@ func deserializeCompiledModule(wazeroVersion string, reader io.ReadCloser) (cm *
 			}
 		}
 		cm.executable = executable
+	} else {
+		// serializeCompiledModule writes the checksum field even when there is no code: consume and
+		// verify it, so that a truncated entry is reported instead of being accepted, and the source map
+		// presence byte is read from its own position rather than from the first checksum byte.
+		expected := crc32.Checksum(nil, crc)
+		if _, err = io.ReadFull(reader, eightBytes[:4]); err != nil {
+			return nil, false, fmt.Errorf("compilationcache: could not read checksum: %v", err)
+		} else if checksum := binary.LittleEndian.Uint32(eightBytes[:4]); expected != checksum {
+			return nil, false, fmt.Errorf("compilationcache: checksum mismatch (expected %d, got %d)", expected, checksum)
+		}
 	}
 
 	if _, err := io.ReadFull(reader, eightBytes[:1]); err != nil {
